@@ -16,9 +16,21 @@ import (
 
 	"github.com/criyle/go-sandbox/container"
 	"github.com/criyle/go-sandbox/pkg/pipe"
+	"github.com/criyle/go-sandbox/pkg/seccomp"
 )
 
 var env container.Environment
+
+// lateDone is cancelled from the start, but says so only after a delay
+type lateDone struct {
+	context.Context
+	after time.Duration
+}
+
+var closedCh = func() chan struct{} { c := make(chan struct{}); close(c); return c }()
+
+func (l lateDone) Done() <-chan struct{} { time.Sleep(l.after); return closedCh }
+func (l lateDone) Err() error            { return context.Canceled }
 
 func strs(v any) []string {
 	r := []string{}
@@ -41,6 +53,8 @@ func errs(e error) any {
 var errFile *os.File
 var errOff int64
 
+var unshareCgroup bool
+
 func ensure(scratch string) error {
 	if env != nil {
 		return nil
@@ -52,7 +66,7 @@ func ensure(scratch string) error {
 			return err
 		}
 	}
-	env, err = hx.NewEnv(scratch, errFile)
+	env, err = hx.NewEnvWith(scratch, errFile, func(b *container.Builder) { b.UnshareCgroupBeforeExec = unshareCgroup })
 	container.VerifTakeEvents()
 	st, _ := errFile.Stat()
 	errOff = st.Size()
@@ -129,12 +143,60 @@ func main() {
 						env.Destroy()
 						env = nil
 					}
+					unshareCgroup = op["unshare_cgroup"] == true
 					o["err"] = errs(ensure(scratch))
 				case "destroy":
 					if env != nil {
 						o["err"] = errs(env.Destroy())
 						env = nil
 					}
+				case "execcross":
+					// cancellations aimed at the instant the program ends by itself, each followed by a Ping: whatever verdict the race
+					// produces, the next call must be answered
+					rounds := int(hx.Int(op["rounds"]))
+					null, _ := os.Open("/dev/null")
+					one := func(d time.Duration) (int, string) {
+						ctx, cancel := context.WithCancel(context.Background())
+						if d > 0 {
+							t := time.AfterFunc(d, cancel)
+							defer t.Stop()
+						}
+						defer cancel()
+						r := env.Execve(ctx, container.ExecveParam{Args: []string{"/vb/probe_target", "exit", "0"}, Env: []string{}, Files: []uintptr{null.Fd(), null.Fd(), null.Fd()}})
+						return int(r.Status), r.Error
+					}
+					var base time.Duration
+					for i := 0; i < 5; i++ {
+						t0 := time.Now()
+						one(0)
+						base += time.Since(t0)
+					}
+					base /= 5
+					counts := map[string]int{}
+					fail := ""
+					done := 0
+					// the same crossing forced: a context whose Done() is only answered once the program has certainly ended, so that
+					// the cancellation and the result are both there when the runtime chooses
+					for rd := 0; rd < rounds/10 && fail == ""; rd++ {
+						r := env.Execve(lateDone{context.Background(), 6 * base}, container.ExecveParam{Args: []string{"/vb/probe_target", "exit", "0"}, Env: []string{},
+							Files: []uintptr{null.Fd(), null.Fd(), null.Fd()}})
+						counts["forced:"+strconv.Itoa(int(r.Status))]++
+						if err := env.Ping(); err != nil {
+							fail = "ping after a run whose cancellation arrived together with its result: " + err.Error()
+						}
+						done++
+					}
+					for rd := 0; rd < rounds && fail == ""; rd++ {
+						d := base + time.Duration(rd%61-30)*(base/60)
+						st, _ := one(d)
+						counts[strconv.Itoa(st)]++
+						if err := env.Ping(); err != nil {
+							fail = "ping after a run whose cancellation crossed its end: " + err.Error()
+						}
+						done++
+					}
+					null.Close()
+					o["rounds_done"], o["fail"], o["statuses"], o["base_us"] = done, fail, counts, base.Microseconds()
 				case "ping":
 					o["err"] = errs(env.Ping())
 				case "reset":
@@ -251,6 +313,12 @@ func main() {
 					ctx, cancel := context.WithTimeout(context.Background(), 8*time.Second)
 					p := container.ExecveParam{Args: strs(op["args"]), Env: []string{"PATH=/usr/bin:/bin"},
 						Files: []uintptr{null.Fd(), buf.W.Fd(), buf.W.Fd()}, SyncAfterExec: op["sync_after"] == true}
+					switch op["seccomp"] {
+					case "ok":
+						p.Seccomp = hx.AllowAll()
+					case "bad":
+						p.Seccomp = seccomp.Filter{{Code: 0xffff, K: 0}} // the kernel refuses it
+					}
 					if n := int(hx.Int(op["env_bytes"])); n > 0 {
 						p.Env = append(p.Env, "BIG="+strings.Repeat("x", n))
 					}
@@ -277,6 +345,7 @@ func main() {
 			select {
 			case <-finished:
 			case <-time.After(12*time.Second + time.Duration(hx.Int(op["rounds"]))*200*time.Millisecond):
+				_ = 0
 				// the call hangs: report it and abandon this environment (and the rest of the history)
 				obs = append(obs, map[string]any{"op": kind, "hang": true, "ms": time.Since(t0).Milliseconds()})
 				env = nil
